@@ -102,6 +102,9 @@ func (e *Engine) execCall(s *State, f *Frame, x *ssa.Call, work *[]*State, probe
 
 func (e *Engine) callFunction(s *State, f *Frame, x *ssa.Call, callee *ssa.Function, args []Value, free []Value, probe *probeRec) bool {
 	name := callee.String()
+	if inModule(callee) {
+		s.callLog = append(s.callLog, funcKey(callee))
+	}
 	e.alt = nil
 	if res, ok := e.externalModel(s, f, x, name, callee, args, probe); ok {
 		if alt := e.alt; alt != nil {
@@ -358,6 +361,9 @@ func (e *Engine) applyContract(s *State, f *Frame, x ssa.Instruction, callee *ss
 	for _, cl := range ct.Ensures {
 		if !e.clauseApplies(cl) || cl.Tag == "local" || ct.mentionsLogical(cl.Expr) {
 			continue // `ensures[local]`: proved for the function itself, not exported to callers
+		}
+		if cl.Props != nil && e.curProp != "" && !contains(cl.Props, e.curProp) {
+			continue // a postcondition stated for other properties only: not needed (and not assumed) in this check
 		}
 		s.assume(c.evalBool(cl.Expr))
 	}
@@ -648,6 +654,15 @@ func (e *Engine) atReturn(s *State, f *Frame, res []Value, pos token.Pos) {
 		return
 	}
 	s.results = res
+	for _, want := range ct.Calls {
+		found := false
+		for _, got := range s.callLog {
+			if got == want {
+				found = true
+			}
+		}
+		e.emit(s, "calls", want, BoolC(found), pos, "every returning path calls "+want)
+	}
 	env := copyEnv(f.params)
 	names := e.resultNames(ct, len(res))
 	for i, v := range res {
